@@ -53,7 +53,7 @@ class ModelMixin:
     def bi_len(self, args, kwargs, st, line):
         v = self.unwrap_opt(args[0], st, 'len', line)
         if isinstance(v, (str, bytes, tuple)):
-            if isinstance(v, tuple) and len(v) == 2 and v[0] == 'frozenlist':
+            if isinstance(v, tuple) and len(v) == 2 and (isinstance(v[0], str) and v[0] == 'frozenlist'):
                 return [ok(len(v[1]), st)]
             return [ok(len(v), st)]
         if isinstance(v, BytesV):
@@ -68,7 +68,7 @@ class ModelMixin:
                 fi = self.repo.find_method(h.cls, '__len__')
                 if fi is not None:
                     return self.call_repo_function(fi, v, [], {}, st, line)
-        if isinstance(v, tuple) and v and v[0] == 'mapslot':
+        if isinstance(v, tuple) and v and (isinstance(v[0], str) and v[0] == 'mapslot'):
             return [ok(z3.Length(self.seq_of(v, st)), st)]
         raise EngineError(f'len of {type(v).__name__} at line {line}')
 
@@ -384,6 +384,81 @@ class ModelMixin:
             tot = tot + x
         return [ok(tot, st)]
 
+    # ------------------------------------------------------------------ heapq on the abstract heap
+    def _heap_item(self, h, item, st, line):
+        if not (isinstance(item, tuple) and len(item) == 2 and isinstance(item[1], BytesV)):
+            raise EngineError('heap item must be (offset, bytes-view)')
+        o, d = item
+        if d.base != h.meta['base']:
+            raise EngineError('heap item of another base')
+        # the abstraction (data determined by offset and length) needs data == base[o:o+len]
+        self.oblige(st, f'heap.item_is_view_at_its_offset@{line}', to_int_term(d.lo) == to_int_term(o), kind='safety', line=line)
+        return to_int_term(o), to_int_term(d.hi) - to_int_term(d.lo)
+
+    def bi_heapq_heappush(self, args, kwargs, st, line):
+        hv, item = args
+        h = st.obj(hv)
+        if h.kind == 'list' and not h.items and False:
+            pass
+        if h.kind != 'sheap':
+            raise EngineError('heappush on a non-abstract heap')
+        o, l = self._heap_item(h, item, st, line)
+        c = h.meta['count']
+        h.meta['count'] = z3.Store(c, o, z3.Store(z3.Select(c, o), l, z3.Select(z3.Select(c, o), l) + 1))
+        return [ok(None, st)]
+
+    def _heap_min(self, h, st):
+        """Witness of a minimal element: (offset m, length lm)."""
+        c = h.meta['count']
+        m, lm = z3.Int(fresh_name('heap_min')), z3.Int(fresh_name('heap_min_len'))
+        o, l = z3.Ints('o__ l__')
+        st.assume(z3.Select(z3.Select(c, m), lm) > 0)
+        st.assume(z3.ForAll([o, l], z3.Implies(z3.Select(z3.Select(c, o), l) > 0, m <= o)))
+        return m, lm
+
+    def sheap_nonempty(self, h, st):
+        c = h.meta['count']
+        cache = h.meta.get('nonempty_cache')
+        if cache is not None and cache[0].eq(c):
+            return cache[1]
+        b = z3.Bool(fresh_name('heap_nonempty'))
+        h.meta['nonempty_cache'] = (c, b)
+        wo, wl = z3.Int(fresh_name('heap_wo')), z3.Int(fresh_name('heap_wl'))
+        o, l = z3.Ints('o__ l__')
+        st.assume(z3.Implies(b, z3.Select(z3.Select(c, wo), wl) > 0))
+        st.assume(z3.Implies(z3.Not(b), z3.ForAll([o, l], z3.Select(z3.Select(c, o), l) <= 0)))
+        return b
+
+    def sheap_peek(self, ref, h, k, st, line):
+        if k != 0:
+            raise EngineError('heap index other than 0')
+        out = []
+        for ne, s2 in self.branch(st, self.sheap_nonempty(h, st)):
+            if not ne:
+                out.append(rs(ExcV('IndexError'), s2))
+                continue
+            h2 = s2.obj(ref)
+            m, lm = self._heap_min(h2, s2)
+            out.append(ok((m, BytesV(h2.meta['base'], m, m + lm)), s2))
+        return out
+
+    def bi_heapq_heappop(self, args, kwargs, st, line):
+        hv = args[0]
+        h = st.obj(hv)
+        if h.kind != 'sheap':
+            raise EngineError('heappop on a non-abstract heap')
+        out = []
+        for ne, s2 in self.branch(st, self.sheap_nonempty(h, st)):
+            if not ne:
+                out.append(rs(ExcV('IndexError'), s2))
+                continue
+            h2 = s2.obj(hv)
+            m, lm = self._heap_min(h2, s2)
+            c = h2.meta['count']
+            h2.meta['count'] = z3.Store(c, m, z3.Store(z3.Select(c, m), lm, z3.Select(z3.Select(c, m), lm) - 1))
+            out.append(ok((m, BytesV(h2.meta['base'], m, m + lm)), s2))
+        return out
+
     # ------------------------------------------------------------------ comprehension (finite)
     def eval_comprehension(self, e, st, kind):
         if len(e.generators) != 1 or e.generators[0].is_async:
@@ -435,7 +510,7 @@ class ModelMixin:
             if m is not None:
                 return m(recv, h, args, kwargs, st, line)
             raise EngineError(f'method {name} of {h.kind} not modelled (line {line})')
-        if isinstance(recv, tuple) and recv and recv[0] == 'mapslot':
+        if isinstance(recv, tuple) and recv and (isinstance(recv[0], str) and recv[0] == 'mapslot'):
             m = getattr(self, f'm_mapslot_{name}', None)
             if m is not None:
                 return m(recv, args, kwargs, st, line)
@@ -477,6 +552,26 @@ class ModelMixin:
     # symbolic list
     def m_slist_append(self, recv, h, args, kwargs, st, line):
         v = args[0]
+        if 'arrs' in h.meta:
+            if not (isinstance(v, Ref) and st.obj(v).kind == 'dict'):
+                raise EngineError('append of a non-record to a record list')
+            items = st.obj(v).items
+            if set(items) != set(h.meta['arrs']):
+                raise EngineError('record fields differ')
+            n = h.meta['len']
+            new = {}
+            for fname, a in h.meta['arrs'].items():
+                x = items[fname]
+                if isinstance(a, tuple):
+                    if not (isinstance(x, BytesV) and x.base == a[0]):
+                        raise EngineError('record bytes field of another base')
+                    new[fname] = (a[0], z3.Store(a[1], n, to_int_term(x.lo)), z3.Store(a[2], n, to_int_term(x.hi)))
+                else:
+                    new[fname] = z3.Store(a, n, to_int_term(x))
+            h.meta['arrs'] = new
+            h.meta['len'] = n + 1
+            h.meta['elem'] = self.record_elem_fn(h)
+            return [ok(None, st)]
         if isinstance(v, Ref):
             term = z3.Const(f'ref!{v.oid}', U)
             h.meta.setdefault('refs', {})[v.oid] = v
